@@ -103,6 +103,120 @@ def inline_locals(f, node, depth=0, used=None):
     return T(depth).visit(copy.deepcopy(node))
 
 
+def specialise_returns(prog, f, consts, keep=(), depth=0):
+    """the expressions f can return when the parameters in `consts` (name -> python constant) have those values, with the locals it
+    binds and the helpers of its own class it calls (bodies made of `if <test on a constant parameter>`, plain local assignments and
+    returns) expanded in place; calls to methods named in `keep` are left as they are.  -> list of expression ASTs, or None when
+    some statement is of another kind"""
+    import copy
+    if depth > 4:
+        return None
+
+    def const_test(t, env):
+        """truth of a test on known-constant names, else None"""
+        if isinstance(t, ast.Compare) and len(t.ops) == 1 and isinstance(t.left, ast.Name) and t.left.id in env and isinstance(t.comparators[0], ast.Constant):
+            a, b = env[t.left.id], t.comparators[0].value
+            if not isinstance(a, ast.Constant):
+                return None
+            a = a.value
+            op = t.ops[0]
+            if isinstance(op, (ast.Is, ast.Eq)):
+                return a is b if b is None or a is None else a == b
+            if isinstance(op, (ast.IsNot, ast.NotEq)):
+                return not (a is b if b is None or a is None else a == b)
+        if isinstance(t, ast.UnaryOp) and isinstance(t.op, ast.Not):
+            v = const_test(t.operand, env)
+            return None if v is None else not v
+        return None
+
+    def subst(e, env):
+        class T(ast.NodeTransformer):
+            def visit_Name(self, n):
+                if isinstance(n.ctx, ast.Load) and n.id in env:
+                    return copy.deepcopy(env[n.id])
+                return n
+
+            def visit_Call(self, n):
+                n = self.generic_visit(n)
+                name = n.func.attr if isinstance(n.func, ast.Attribute) else getattr(n.func, "id", None)
+                if name in keep or not (isinstance(n.func, ast.Attribute) and isinstance(n.func.value, ast.Name) and n.func.value.id == "self"):
+                    return n
+                callee = prog.resolve_call(f, n)
+                if callee is None or callee.cls != f.cls or any(isinstance(a, ast.Starred) for a in n.args):
+                    return n
+                _, b = bind(prog, f, n)
+                if b is None or any(k.startswith("*") for k in b):
+                    return n
+                env2 = {}
+                dflt = callee.defaults()
+                for prm in callee.params()[1:]:
+                    if prm in b:
+                        env2[prm] = b[prm]
+                    elif prm in dflt:
+                        env2[prm] = dflt[prm]
+                    else:
+                        return n
+                inner = _spec(callee, env2, depth + 1)
+                if inner is None or len(inner) != 1:
+                    return n
+                return inner[0]
+        return T().visit(copy.deepcopy(e))
+
+    def _spec(fn, env, d):
+        if d > 4:
+            return None
+        outs = []
+
+        def block(stmts, env):
+            """-> True when the block always returns"""
+            for st in stmts:
+                if isinstance(st, ast.Expr) and isinstance(st.value, ast.Constant):
+                    continue
+                if isinstance(st, ast.Return):
+                    if st.value is None:
+                        return None
+                    outs.append(specialise_expr(fn, st.value, env))
+                    return True
+                if isinstance(st, ast.Assign) and len(st.targets) == 1 and isinstance(st.targets[0], ast.Name):
+                    env[st.targets[0].id] = specialise_expr(fn, st.value, env)
+                    continue
+                if isinstance(st, ast.If):
+                    c = const_test(st.test, env)
+                    if c is True:
+                        r = block(st.body, env)
+                    elif c is False:
+                        r = block(st.orelse, env)
+                    else:
+                        e1, e2 = dict(env), dict(env)
+                        r1, r2 = block(st.body, e1), block(st.orelse, e2)
+                        if r1 is None or r2 is None:
+                            return None
+                        if r1 and r2:
+                            return True
+                        if r1 or r2:
+                            env.clear()
+                            env.update(e2 if r1 else e1)
+                            continue
+                        return None            # both arms fall through with different bindings: not followed
+                    if r is None or r is True:
+                        return r
+                    continue
+                return None
+            return False
+        r = block(fn.body(), dict(env))
+        return outs if r is True else None
+
+    def specialise_expr(fn, e, env):
+        nonlocal f
+        saved, f = f, fn
+        try:
+            return subst(e, env)
+        finally:
+            f = saved
+    env0 = {k: ast.Constant(value=v) for k, v in consts.items()}
+    return _spec(f, env0, depth)
+
+
 def passthrough(prog, f, call):
     """does the package function called here return its single argument unchanged on every returning path?
     True / a description of the path that alters it / None (cannot tell)"""
@@ -165,7 +279,7 @@ def memo_forward(prog, f):
     return st.value, inline_locals(f, st.targets[0].slice), table
 
 
-def check_wrapper(ck, prog, rule, api_rel, api_qual, backend_key, argmap=None, allow_pre=(), void=False, memo=None):
+def check_wrapper(ck, prog, rule, api_rel, api_qual, backend_key, argmap=None, allow_pre=(), void=False, memo=None, _hop=0):
     """a thin wrapper: what it returns (or, for void=True, the one backend call it makes) is `<receiver>.<backend>(...)` with each
     of its own parameters (argmap, default: all, same name) bound to the stated formal.
     Shape problems (no return, a returned expression that is not a resolvable call) are 'undecided'; a resolvable call to a
@@ -205,6 +319,23 @@ def check_wrapper(ck, prog, rule, api_rel, api_qual, backend_key, argmap=None, a
     for v in calls:
         callee, b = bind(prog, f, v)
         if callee.key != backend_key:
+            brel, bqual = backend_key.split(":")
+            bcls_ = bqual.split(".")[0] if "." in bqual else None
+            if (callee.mod.rel, callee.cls) != (brel, bcls_) and not void:
+                # not a routine of the backend at all but a helper on the wrapper's side: the forward is judged through it - wrapper
+                # parameter -> helper formal (plain names), then the helper as a wrapper of the backend routine
+                if _hop >= 2 or len(calls) != 1:
+                    raise Undecided("unrecognised shape: %s forwards through %s (helper chain not followed)" % (f.qual, callee.qual), f.loc(v))
+                hop_map = {}
+                for own_p, formal in argmap.items():
+                    hs = [h for h, a in b.items() if isinstance(a, ast.Name) and a.id == own_p]
+                    if len(hs) != 1:
+                        raise Undecided("unrecognised shape: %s hands %s to helper %s in a form that is not a plain name" % (f.qual, own_p, callee.qual), f.loc(v))
+                    hop_map[hs[0]] = formal
+                ck.info("%s forwards through its helper %s" % (f.qual, callee.qual))
+                return check_wrapper(ck, prog, rule, callee.mod.rel, callee.qual, backend_key, argmap=hop_map, memo=memo, _hop=_hop + 1)
+            if _hop:
+                raise Undecided("unrecognised shape: helper %s reaches several backend routines (a dispatcher)" % f.qual, f.loc(v))
             good &= ck.ob(rule, construct, False, expected=backend_key, found=callee.key, slot="callee", where=f.loc(v),
                           note="the API method must forward to its own backend routine")
             continue
@@ -213,6 +344,16 @@ def check_wrapper(ck, prog, rule, api_rel, api_qual, backend_key, argmap=None, a
             for n in ast.walk(f.node):
                 if isinstance(n, (ast.Assign, ast.AugAssign)) and any(isinstance(x, ast.Name) and x.id == own_p and isinstance(x.ctx, ast.Store)
                                                                        for t in (n.targets if isinstance(n, ast.Assign) else [n.target]) for x in ast.walk(t)):
+                    if isinstance(n, ast.Assign) and isinstance(n.value, ast.Call) and len(n.value.args) == 1 and not n.value.keywords \
+                            and isinstance(n.value.args[0], ast.Name) and n.value.args[0].id == own_p:
+                        # `p = self.checked(p)`: harmless when the helper hands back exactly what it was given
+                        pt = passthrough(prog, f, n.value)
+                        if pt is True:
+                            continue
+                        if pt is not None:
+                            good &= ck.ob(rule, construct, False, expected="%s reaches %s unchanged" % (own_p, formal), found="%s: %s" % (unparse(n), pt), slot=own_p, where=f.loc(n),
+                                          note="a checking helper in front of the backend must hand back the value it was given")
+                            continue
                     txt = unparse(n.value).replace(" ", "")
                     changing = txt.startswith(("sorted(", "set(", "list(set(", "reversed(", "list(reversed(", "frozenset(", "tuple(sorted(", "sorted(set(", "list(sorted(")) or txt.endswith("[::-1]")
                     if not changing:
